@@ -70,3 +70,25 @@ Theorem C14_check_is_exact : forall p k1 f1 s1 k2 f2 s2,
   exists kinds tr, permitted p kinds tr /\ has_race tr.
 Proof. exact conflict_realizable. Qed.
 Print Assumptions C14_check_is_exact.
+
+(* Second obligation (separately named, generated as  effects_updates_atomic : atomic_update_defects program = []):
+   "every update of a shared location is ONE atomic operation".  If the summary has no such defect then no call
+   of an entry point of a kind of thread (for constructor threads: of any function) reaches both an atomic Load
+   site and an atomic Store site of the same shared location.  Data-race freedom cannot see this: Load + Store is
+   race free, yet two overlapping constructor calls can both load the old value (see ex_lost_update_is_silent). *)
+Theorem C14_updates_are_atomic : forall p, atomic_update_defects p = [] ->
+  forall k h, In h (roots p k) ->
+  forall fl sl fs ss,
+    In fl (p_funcs p) -> In sl (f_sites fl) -> reachable p [h] (f_name fl) ->
+    In fs (p_funcs p) -> In ss (f_sites fs) -> reachable p [h] (f_name fs) ->
+    sharedb k sl = true -> sharedb k ss = true ->
+    s_aop sl = ALoad -> s_aop ss = AStore -> s_loc sl = s_loc ss -> False.
+Proof. exact updates_atomic_generic. Qed.
+Print Assumptions C14_updates_are_atomic.
+
+(* What it buys: when every write to a counter is a single atomic increment of its current value (atomic.AddInt32,
+   the only way combinator.Memoize touches nextParserIndex), the values drawn are pairwise distinct in every
+   interleaving — concurrently constructed memoized parsers get distinct parser indices. *)
+Theorem C14_atomic_draws_distinct : forall l m tr, increments l m tr -> NoDup (draws l tr).
+Proof. exact draws_distinct. Qed.
+Print Assumptions C14_atomic_draws_distinct.
